@@ -51,6 +51,7 @@ func checkC06(run *Run, res *Result) {
 		return groupHanded[vb]
 	}
 	badEmitted := 0
+	stopping := map[int]bool{}
 	// the tuples sessions were opened with (loaded from the store / auto-reset) are legitimate stored values;
 	// a save may run before the stream request that reveals the loaded tuple has been answered, so collect them first
 	for i := range run.Evs {
@@ -69,6 +70,17 @@ func checkC06(run *Run, res *Result) {
 		e := &run.Evs[i]
 		k := vbKey{e.M, e.Vb}
 		switch e.K {
+		case journal.KHandler:
+			if e.S == "BeforeStreamStop" {
+				stopping[e.M] = true
+			}
+			if e.S == "AfterStreamStart" {
+				stopping[e.M] = false
+			}
+		case journal.KCall:
+			if e.S == "Close" {
+				stopping[e.M] = true
+			}
 		case journal.KReq:
 			// the position a session loaded is "handed out" from the moment its stream request leaves the client:
 			// with the file backend a Commit during the open phase writes every vBucket, also those whose
@@ -117,7 +129,11 @@ func checkC06(run *Run, res *Result) {
 			default:
 				if !v.haveMk || e.Seq < v.mkS || e.Seq > v.mkE {
 					v.badSeq[e.Seq] = true
-					badEmitted++
+					if stopping[e.M] {
+						res.probe("out-of-snapshot-item-while-stopping") // the observers are closed already: the item is dropped, rightly
+					} else {
+						badEmitted++
+					}
 					continue
 				}
 				v.expected[e.Seq] = tuple{v.uuid, e.Seq, v.mkS, v.mkE}
